@@ -1796,6 +1796,11 @@ class Builtins:
             from . import jsonmodel
 
             return jsonmodel.method(X, st, selfv, name, args, kw)
+        if isinstance(selfv, VOpq) and selfv.tag == "opaque-dict" and name == "update" and len(args) == 1:
+            # mutation of a module namespace (globals() is the live dict, not a snapshot): recorded; the frame
+            # clause of the caller decides whether it is allowed
+            st.events.append(("globals-mutated", selfv.t, args[0]))
+            return [Res(st, NONE)]
         if isinstance(selfv, VOpq) and selfv.tag == "factory" and name == "fromJsonFragment":
             return X.I.child_from_json(st, selfv, args)
         if isinstance(selfv, VOpq) and selfv.tag == "ndarray":
